@@ -985,7 +985,23 @@ impl Parser {
                     match self.next_lexem() {
                         Some(Lexem::Comma) => {}
                         Some(Lexem::RawString(ref ordering_field)) => {
+                            // a number is a position only if the key ends there: `2 - size` is an expression
+                            let expression_follows = matches!(
+                                self.lexems.get(self.index),
+                                Some(Lexem::ArithmeticOperator(_))
+                            );
                             let actual_field = match ordering_field.parse::<usize>() {
+                                Ok(_) if expression_follows => {
+                                    self.drop_lexem();
+                                    match self.parse_expr()? {
+                                        Some(field) => field,
+                                        None => {
+                                            return Err(String::from(
+                                                "Error parsing order by, column expected",
+                                            ));
+                                        }
+                                    }
+                                }
                                 Ok(idx) => match idx.checked_sub(1).and_then(|i| fields.get(i)) {
                                     Some(field) => field.clone(),
                                     None => {
